@@ -5,7 +5,7 @@ import json, hashlib, os
 def sig(rec, clauses):
     k = rec.get("k")
     s = {"component": {"schur": "schur", "schurO": "schur", "pattern": "schur", "cpr": "cpr", "cprupd": "cpr", "cprO": "cpr", "cprdev": "cpr",
-                       "defl": "deflated_solver", "deflmt": "deflated_solver"}.get(k, str(k))}
+                       "defl": "deflated_solver", "deflmt": "deflated_solver", "reuse": "solver-reuse"}.get(k, str(k))}
     if k == "pattern":
         s.update(clause="pmask_pattern", pattern=rec.get("pattern"))
     elif k in ("schur", "schurO"):
@@ -17,10 +17,12 @@ def sig(rec, clauses):
         s.update(clause="schur-operator" if any("schur-operator" in c for c in clauses) else "apply",
                  adjust_p=rec.get("adjust"), type=rec.get("type"), pressure_diagonal_stored=ppdiag)
     elif k == "cprupd":
-        s.update(clause="partial_update", variant=rec.get("variant"), update_transfer_ops=rec.get("transfer"), block_input=rec.get("block"), shuffled_rows=rec.get("shuffled"),
+        s.update(clause="partial_update", variant=rec.get("variant"), update_transfer_ops=rec.get("transfer"), block_input=rec.get("block"), shuffled_rows=rec.get("shuffled"), eps_dd64=rec.get("dd64"), eps_ps64=rec.get("ps64"),
                  crash=bool(rec.get("crash")), hang=bool(rec.get("hang")))
     elif k in ("cpr", "cprO", "cprdev"):
         s.update(clause="two-stage", variant=rec.get("variant", "cpr"), block_size=rec.get("B"), active_rows=rec.get("act"))
+    elif k == "reuse":
+        s.update(clause="operator()(A, rhs, x)", wrapper=rec.get("wrapper"), solver=rec.get("solver"), nvec=rec.get("nvec"))
     elif k in ("defl", "deflmt"):
         s.update(clause="deflation", solver=rec.get("solver"), nvec=rec.get("nvec"), threads=rec.get("threads", 1))
     return s
@@ -73,11 +75,11 @@ def run(c):
     ], max_workers=3)
     teeth = pinned[2:]
     pinned = pinned[:2]
-    modes = ["schur", "schurO", "pattern", "cpr", "cprO", "defl", "deflmt"]
+    modes = ["schur", "schurO", "pattern", "cpr", "cprO", "defl", "deflmt", "reuse"]
     # deflmt: the set-up loops with 4 really overlapping threads (data races are a matter of timing)
     menv = {"deflmt": {"OMP_NUM_THREADS": 4, "OMP_WAIT_POLICY": "passive"}}
     traces = c.parallel([(lambda m=m: c.record(rc, [m], out=c.path("comp-%s.ndjson" % m), timeout=1200, env=menv.get(m)))
-                         for m in modes], max_workers=7)
+                         for m in modes], max_workers=8)
     results = c.parallel([(lambda i=i: c.tlc_trace("C18Trace", traces[i], label=modes[i], chunk=1500, env=tenv)) for i in range(len(modes))],
                          max_workers=3)
     drift = {"drift0": 0, "drift1": 0}
